@@ -77,6 +77,9 @@ pub struct CheckDef {
     pub exec: fn(&Scn, &mut Ctx) -> Verdict,
     pub components: &'static str,
     pub assumptions: &'static [&'static str],
+    /// the property itself demands determinism of the code under test (C16): a run whose
+    /// re-execution differs is then a violation, not a harness error
+    pub nondet_is_violation: bool,
 }
 
 static INTERN: Mutex<BTreeMap<String, &'static str>> = Mutex::new(BTreeMap::new());
@@ -470,7 +473,13 @@ fn search(def: &CheckDef, opts: &RunOpts, total: u64) -> Acc {
                             a.rechecks += 1;
                             if fp2 != fp {
                                 a.recheck_mismatch += 1;
-                                a.harness.push(format!("run {} is not deterministic (fingerprints differ)", r));
+                                if def.nondet_is_violation {
+                                    if !failing {
+                                        a.failures.push((r, "nondeterministic".into(), "re-executing the same scenario in the same process gave a different result: hidden state outside the instances".into()));
+                                    }
+                                } else {
+                                    a.harness.push(format!("run {} is not deterministic (fingerprints differ)", r));
+                                }
                             }
                         }
                         match v {
@@ -562,6 +571,33 @@ pub fn run_check(def: &CheckDef, opts: &RunOpts) -> i32 {
             continue;
         }
         shrunk += 1;
+        if clause == "nondeterministic" {
+            // not shrinkable by re-execution of a pure function: report the scenario as it is
+            violations += 1;
+            if reported.iter().any(|r: &J| r.get("clause").and_then(|c| c.str()) == Some("nondeterministic")) {
+                continue;
+            }
+            let file = J::obj()
+                .with("engine", J::s("vsim"))
+                .with("property", J::s(def.id))
+                .with("verif_seed", J::U(opts.seed as u128))
+                .with("run_index", J::U(*r as u128))
+                .with("minimised", J::Bool(false))
+                .with("verdict", J::obj().with("clause", J::s("nondeterministic")).with("detail", J::s(detail0)))
+                .with("scenario", scn.to_json());
+            let dir = format!("{}/replays", opts.root);
+            let _ = std::fs::create_dir_all(&dir);
+            let path = format!("{}/{}-{}-{:016x}.json", dir, def.id, opts.seed, scn.hash());
+            if std::fs::write(&path, file.pretty()).is_ok() {
+                println!("violation: property={} clause=nondeterministic run={} detail={}", def.id, r, detail0);
+                println!("VIOLATION property={} replay={}", def.id, path);
+                reported.push(J::obj().with("clause", J::s("nondeterministic")).with("replay", J::s(&path)).with("run", J::U(*r as u128)));
+                if exit == 0 {
+                    exit = 1;
+                }
+            }
+            continue;
+        }
         let reject = |c: &Scn, cl: &str, d: &str| crate::findings::classify(&findings, def.id, c, cl, d).is_some();
         let (min, tries) = shrink(def, &scn, clause, 3000, &reject);
         let mut ctx = Ctx::new();
@@ -569,6 +605,33 @@ pub fn run_check(def: &CheckDef, opts: &RunOpts) -> i32 {
         let (clause2, detail) = match &v {
             Verdict::Violation { clause, detail } => (clause.clone(), detail.clone()),
             other => {
+                if def.nondet_is_violation {
+                    // the failure does not reproduce when the very same calls are made again: the
+                    // outcome depends on state outside the instances, which is what this property forbids
+                    violations += 1;
+                    if !reported.iter().any(|r: &J| r.get("clause").and_then(|c| c.str()) == Some("nondeterministic")) {
+                        let file = J::obj()
+                            .with("engine", J::s("vsim"))
+                            .with("property", J::s(def.id))
+                            .with("verif_seed", J::U(opts.seed as u128))
+                            .with("run_index", J::U(*r as u128))
+                            .with("minimised", J::Bool(false))
+                            .with("verdict", J::obj().with("clause", J::s("nondeterministic")).with("detail", J::S(format!("run failed with clause {} ({}), but re-executing its calls does not fail again", clause, detail0))))
+                            .with("scenario", scn.to_json());
+                        let dir = format!("{}/replays", opts.root);
+                        let _ = std::fs::create_dir_all(&dir);
+                        let path = format!("{}/{}-{}-{:016x}.json", dir, def.id, opts.seed, scn.hash());
+                        if std::fs::write(&path, file.pretty()).is_ok() {
+                            println!("violation: property={} clause=nondeterministic run={} detail=run failed with clause {} but the failure does not reproduce on re-execution: hidden state outside the instances", def.id, r, clause);
+                            println!("VIOLATION property={} replay={}", def.id, path);
+                            reported.push(J::obj().with("clause", J::s("nondeterministic")).with("replay", J::s(&path)).with("run", J::U(*r as u128)));
+                            if exit == 0 {
+                                exit = 1;
+                            }
+                        }
+                    }
+                    continue;
+                }
                 println!("HARNESS-ERROR: minimised trace of run {} no longer fails: {:?}", r, other);
                 exit = 2;
                 continue;
@@ -609,7 +672,7 @@ pub fn run_check(def: &CheckDef, opts: &RunOpts) -> i32 {
             Some(out) => out.status.code() == Some(1),
             None => false,
         };
-        if !confirmed {
+        if !confirmed && !def.nondet_is_violation {
             println!("HARNESS-ERROR: replay of {} in a fresh process did not reproduce the violation", path);
             exit = 2;
             continue;
@@ -826,6 +889,13 @@ pub fn replay(defs: &[CheckDef], path: &str, quiet: bool) -> i32 {
     let (v, _, fp) = run_once(def, &scn);
     let (_, _, fp2) = run_once(def, &scn);
     if fp != fp2 {
+        if def.nondet_is_violation {
+            if !quiet {
+                println!("replay: property={} clause=nondeterministic: two executions of this trace in one process differ", def.id);
+                println!("VIOLATION property={} replay={}", def.id, path);
+            }
+            return 1;
+        }
         println!("HARNESS-ERROR: replay is not deterministic");
         return 2;
     }
